@@ -355,6 +355,19 @@ func (env *Env) tr(x Expr) TV {
 		return env.indexTV(b, i)
 	case *ESlice:
 		b := env.tr(x.X)
+		if isString(b.Ty) {
+			// s[lo:hi] of a string
+			e.decl("fn:str_slice", "(declare-fun str_slice (Str Int Int) Str)")
+			lo := Term("0")
+			if x.Lo != nil {
+				lo = env.tr(x.Lo).T
+			}
+			hi := app("str_len", b.T)
+			if x.Hi != nil {
+				hi = env.tr(x.Hi).T
+			}
+			return TV{app("str_slice", b.T, lo, hi), b.Ty}
+		}
 		sl, ok := b.Ty.Underlying().(*types.Slice)
 		if !ok {
 			specFail("slicing non-slice %s", b.Ty)
